@@ -3,6 +3,7 @@ CONSTANTS
  Confs <- NoopConfs
  MaxCloses = 4
  MaxOps = 2
+ NormKeys = TRUE
  Eager = FALSE
 INIT GInit
 NEXT GNext
